@@ -31,6 +31,8 @@ enum {
     LC_TRUE,
     LC_FALSE,
     LC_INTMIN,      /* INT64_MIN */
+    LC_STR32K,      /* 32768 bytes: the smallest string that needs a 4-byte length prefix */
+    LC_BYT32K,      /* 32768 bytes of binary */
     LC_OBJ = 100,   /* containers */
     LC_ARR
 };
@@ -57,6 +59,13 @@ static inline void vf_emit_leaf(vf_doc *d, int cls, int k)
     case LC_BYT40: for (int i = 0; i < 40; i++) tmp[i] = (char) (k * 7 + i * 13); vf_b_blob(d, VK_BYT, tmp, 40); break;
     case LC_DBL:   { double v = k + 0.5; uint64_t u; memcpy(&u, &v, 8); vf_b_dbits(d, u); break; }
     case LC_DBLBIG: { double v = -1e308; uint64_t u; memcpy(&u, &v, 8); vf_b_dbits(d, u); break; }
+    case LC_STR32K: case LC_BYT32K: {
+        static uint8_t big[32768];
+        if (!big[0]) { memset(big, 's', sizeof big); big[100] = 0x80; big[32767] = 'e'; }
+        big[1] = (uint8_t) ('0' + k % 10);
+        vf_b_blob(d, cls == LC_STR32K ? VK_STR : VK_BYT, big, sizeof big);
+        break;
+    }
     case LC_TRUE:  vf_b_bool(d, true); break;
     case LC_FALSE: vf_b_bool(d, false); break;
     default: vf_die("unknown leaf class %d", cls);
@@ -87,7 +96,7 @@ struct vf_gen {
     bool           stop;
 };
 
-typedef struct { size_t len; int nn, nopen, leafk; int16_t p_last, p_first, p_nch, prev_next_of; } vf_mark;
+typedef struct { size_t len; int nn, nopen, leafk; int32_t p_last, p_first, p_nch, prev_next_of; } vf_mark;
 static inline void vf_gen_mark(vf_gen *g, vf_mark *m)
 {
     vf_doc *d = &g->doc;
